@@ -108,9 +108,15 @@ CHECKS["C14"] = dict(
          "functions, error collection, re-association, name resolution, definition order) on every sequence of <= 4 (quick) / 5 (thorough) tokens, kinds symbolic "
          "and refined lazily: no panic, finishes within the fuel bound, returns Ok or a non-empty error list. K: tokenize on every text of <= 3/4 symbolic "
          "characters (C09's exploration): no panic, rejection carries an error. S: type_check on programs of <= 4 nodes and resolve_variables on trees of <= 5/6 "
-         "nodes: no panic, rejection carries an error. L: listing on symbolic text: no slice off a character boundary, no underflow.",
-    note="Trusted: executor + models, z3; panics the executor does not model (allocation failure, stack overflow) are outside. NOT covered: main.rs (file "
-         "reading, invalid UTF-8, exit status, stdout/stderr routing) is I/O and is not encoded; inputs beyond the bounds.",
+         "nodes: no panic, rejection carries an error. L: listing on symbolic text: no slice off a character boundary, no underflow. M: the process glue "
+         "of src/main.rs (main, entry, run, collect_errors, with the real error::throw, Display for Error and evaluate) executed with the command-line shape, "
+         "the readability of the file and every stage's outcome (Ok, or 1..3 errors of three message shapes) as solver variables; println!/eprintln!/exit are "
+         "events: a failing stage gives status 1, nothing on stdout, exactly the stage's [Error] diagnostics in order on stderr and no later stage runs; success "
+         "gives status 0, nothing on stderr, the elaborated term and type (check) or the value (run); check never evaluates; no panic. The model is compared "
+         "with the real binary on every scenario class on every run and violations are replayed on the real binary.",
+    note="Trusted: executor + models, z3; panics the executor does not model (allocation failure, stack overflow) are outside. Part M replaces tokenize/parse/"
+         "type_check by nondeterministic stubs that honour the contract parts P, K, S establish (Ok or a non-empty error list); invalid UTF-8 is the case "
+         "'read_to_string fails'. NOT covered: clap's own argument handling, thread creation failure, colour; inputs beyond the bounds.",
     ref="DESIGN.md 4 (C14)")
 CHECKS["C08"] = dict(
     text="Bounded symbolic verification of scoping: the real parser::resolve_variables/collect_definitions run by path forking on every syntax-tree skeleton "
@@ -187,8 +193,21 @@ CHECKS["C10"] = dict(
     note="Trusted: as C09. The parser's equal treatment of the two terminator kinds is not part of this encoding.",
     ref="DESIGN.md 4 (C10)")
 
+CHECKS["C17"] = dict(
+    text="Bounded work bound for the packrat parser (the mechanism behind the property, not its asymptotics): the real parser::parse -- every memoised "
+         "parse_* function with the cache macros expanded and the HashMap cache -- is executed on every sequence of <= 3 (quick) / 5 (thorough) symbolic "
+         "tokens over all 29 kinds, well-formed and malformed alike, and on every path the number of calls of parse_* functions (cache hits included) must "
+         "stay below 4 * S * (n + 1), S being the number of static parse_* call sites read from parser.rs on this run (the packrat invariant gives "
+         "S * (n + 1) + 1). A parser whose work multiplies per nesting level (failures not memoised, a cycle of un-memoised functions) exceeds the bound "
+         "by orders of magnitude already on 0-2 tokens because the precedence ladder is ~15 levels deep. A violation is replayed natively: the compiled "
+         "tokenizer + parser timed on the witness wrapped in 0..3 pairs of parentheses must grow geometrically.",
+    note="This does NOT decide growth for n in the thousands (no bounded check can); it decides that within the bound no input costs more than a constant "
+         "multiple of the packrat work, which is what excludes the exponential families at their smallest members. The factor 4 tolerates un-memoising "
+         "single functions whose callers are memoised (parsing stays linear: not a violation). The tokenizer (a single pass) and wall-clock time are outside. "
+         "Trusted: executor + models (parser validated against the compiled parser each run), z3.",
+    ref="DESIGN.md 4 (C17)")
+
 NOT_APPLICABLE = {
-    "C17": "asymptotic running time over n in the thousands is not observable by bounded symbolic execution (DESIGN.md section 6)",
 }
 
 ALL = ["C%02d" % i for i in range(1, 20)]
